@@ -143,6 +143,15 @@ def run_case(ctx, i, rng):
         ctx.sample(r[2])
 
 
+def _q(rng, ctx, fn, root, **kw):
+    """the module-level query or, one time in four, the shortcut method of the same name on the reference itself"""
+    m = getattr(root, fn.__name__, None)
+    if callable(m) and rng.random() < 0.25:
+        ctx.count("queries_through_the_shortcut_method")
+        return m(**kw)
+    return fn(root, **kw)
+
+
 def check_netlist(ctx, i, rng, n, st, phase):
     """All start points of one netlist state; returns None after a violation / discard, else (fingerprint, nontrivial, sample)."""
     hwires = list(sdn.get_hwires(n, recursive=True))
@@ -183,7 +192,7 @@ def check_netlist(ctx, i, rng, n, st, phase):
             if ow is not None and ow.cable is not None:
                 outer = ids(s[:-3] + (ow.cable, ow))
         for sel, exp in ((S.INSIDE, {inner} - {None}), (S.OUTSIDE, {outer} - {None}), (S.BOTH, {inner, outer} - {None})):
-            if check(ctx, phase + "hwires-from-hpin:%s" % sel.name, "get_hwires(hpin, %s)" % sel.name, sdn.get_hwires(hp, selection=sel), exp, st):
+            if check(ctx, phase + "hwires-from-hpin:%s" % sel.name, "get_hwires(hpin, %s)" % sel.name, _q(rng, ctx, sdn.get_hwires, hp, selection=sel), exp, st):
                 return None
             if check(ctx, phase + "hcables-from-hpin:%s" % sel.name, "get_hcables(hpin, %s)" % sel.name, sdn.get_hcables(hp, selection=sel),
                      set(x[:-1] for x in exp), st):
@@ -192,7 +201,7 @@ def check_netlist(ctx, i, rng, n, st, phase):
         for x in (inner, outer):
             if x is not None:
                 expall |= classes[uf.find(x)]
-        if check(ctx, phase + "hwires-from-hpin:ALL", "get_hwires(hpin, ALL)", sdn.get_hwires(hp, selection=S.ALL), expall, st):
+        if check(ctx, phase + "hwires-from-hpin:ALL", "get_hwires(hpin, ALL)", _q(rng, ctx, sdn.get_hwires, hp, selection=S.ALL), expall, st):
             return None
         if check(ctx, phase + "hcables-from-hpin:ALL", "get_hcables(hpin, ALL)", sdn.get_hcables(hp, selection=S.ALL), set(x[:-1] for x in expall), st):
             return None
@@ -212,18 +221,18 @@ def check_netlist(ctx, i, rng, n, st, phase):
                 exp.add(ids(s[:-2] + (pin.port, pin)))
         if len(w.pins) and not has_port_pin:
             only_inst = True
-        if check(ctx, phase + "hpins-from-hwire", "get_hpins(hwire)", sdn.get_hpins(hw), exp, st):
+        if check(ctx, phase + "hpins-from-hwire", "get_hpins(hwire)", _q(rng, ctx, sdn.get_hpins, hw), exp, st):
             return None
         if check(ctx, phase + "hports-from-hwire", "get_hports(hwire)", sdn.get_hports(hw), set(x[:-1] for x in exp), st):
             return None
         cls = classes[uf.find(k)]
         tag = "instance-pins-only" if (len(w.pins) and not has_port_pin) else "with-port-pin"
-        if check(ctx, phase + "hwires-from-hwire:ALL:%s" % tag, "get_hwires(hwire, ALL) [%s]" % tag, sdn.get_hwires(hw, selection=S.ALL), cls, st):
+        if check(ctx, phase + "hwires-from-hwire:ALL:%s" % tag, "get_hwires(hwire, ALL) [%s]" % tag, _q(rng, ctx, sdn.get_hwires, hw, selection=S.ALL), cls, st):
             return None
         if check(ctx, phase + "hcables-from-hwire:ALL:%s" % tag, "get_hcables(hwire, ALL) [%s]" % tag, sdn.get_hcables(hw, selection=S.ALL),
                  set(x[:-1] for x in cls), st):
             return None
-        if check(ctx, phase + "hwires-from-hwire:INSIDE", "get_hwires(hwire, INSIDE)", sdn.get_hwires(hw, selection=S.INSIDE), {k}, st):
+        if check(ctx, phase + "hwires-from-hwire:INSIDE", "get_hwires(hwire, INSIDE)", _q(rng, ctx, sdn.get_hwires, hw, selection=S.INSIDE), {k}, st):
             return None
     # starts: hierarchical cables and ports (union over their wires / pins)
     hcables = list(sdn.get_hcables(n, recursive=True))
@@ -234,7 +243,7 @@ def check_netlist(ctx, i, rng, n, st, phase):
         exp = set()
         for w in s[-1].wires:
             exp |= classes[uf.find(ids(s + (w,)))]
-        if check(ctx, phase + "hwires-from-hcable:ALL", "get_hwires(hcable, ALL)", sdn.get_hwires(hc, selection=S.ALL), exp, st):
+        if check(ctx, phase + "hwires-from-hcable:ALL", "get_hwires(hcable, ALL)", _q(rng, ctx, sdn.get_hwires, hc, selection=S.ALL), exp, st):
             return None
     for hp in (hports if len(hports) <= cap // 4 else rng.sample(hports, cap // 4)):
         ctx.count("starts_hport")
@@ -249,7 +258,7 @@ def check_netlist(ctx, i, rng, n, st, phase):
                 ow = inst.pins[pin].wire
                 if ow is not None and ow.cable is not None:
                     exp |= classes[uf.find(ids(s[:-2] + (ow.cable, ow)))]
-        if check(ctx, phase + "hwires-from-hport:ALL", "get_hwires(hport, ALL)", sdn.get_hwires(hp, selection=S.ALL), exp, st):
+        if check(ctx, phase + "hwires-from-hport:ALL", "get_hwires(hport, ALL)", _q(rng, ctx, sdn.get_hwires, hp, selection=S.ALL), exp, st):
             return None
     # every member of a class gives the same ALL answer (follows from the above when all starts are checked)
     ctx.count("net_classes", len(classes))
